@@ -471,6 +471,10 @@ func (st *State) assumeWellFormed(v Term, t types.Type) {
 	case *types.Interface:
 		_ = tt
 		st.sc.assert(T(SBool, "(and (<= 0 (i-type %[1]s)) (=> (= (i-type %[1]s) 0) (= (i-val %[1]s) 0)))", v.S))
+		// static typing: the dynamic type implements the static interface type
+		if it, ok := t.Underlying().(*types.Interface); ok && it.NumMethods() > 0 {
+			st.sc.assert(or(eq(ifType(v), intLit(0)), st.implementsPred(ifType(v), t)))
+		}
 		// what the interface value holds was allocated before the value was obtained
 		ids := make([]int, 0, len(st.u().typeByID))
 		for id := range st.u().typeByID {
